@@ -5,10 +5,16 @@
 (* of the given shape.  One JSON line per schedule goes to IOEnv.VERIF_PLAN; the       *)
 (* driver executes the maximal ones on real objects (their prefixes are judged on the  *)
 (* way: the trace is validated after every step).                                      *)
-(* All sixteen shape classes (does a constructor take byte slices, does a use take /   *)
-(* return them, do accessors return them) are explored in one run; every line carries   *)
-(* its shape, and the check keeps the classes that occur in the inventory.              *)
-EXTENDS MC_Ownership, Json, IOUtils, CSV
+(* The shape classes explored (does a constructor take byte slices, does a use take /   *)
+(* return them, do accessors return them) are exactly those that occur in the inventory  *)
+(* table (OwnershipInventory); every line carries its shape.  The same run hands the      *)
+(* table itself to the check (VERIF_INVENTORY), which diffs it against the API extracted  *)
+(* from the code and against the driver's targets.                                        *)
+EXTENDS MC_Ownership, OwnershipInventory, Json, IOUtils, CSV
+
+ASSUME InventoryOK
+ASSUME "VERIF_INVENTORY" \notin DOMAIN IOEnv
+         \/ ndJsonSerialize(IOEnv.VERIF_INVENTORY, <<[targets |-> Targets, excluded |-> Excluded]>>)
 
 EnvSteps == atoi(IOEnv.VERIF_STEPS)
 
